@@ -10,7 +10,7 @@ LeafSeq == <<"a", "c", "d">>
 cLeaf == {LeafSeq[i] : i \in 1..Len(LeafSeq)}
 cLoc  == cLeaf \cup {"f:total"}
 cPar  == [l \in cLoc |-> "/"]
-cValsOf == [l \in cLeaf |-> {7}]
+cValsOf == [l \in cLeaf |-> IF l = "a" THEN {7, 5} ELSE {7}]      \* two values for the source: a second assignment must be visible in the dependants
 cInitMem == [l \in cLeaf |-> CASE l = "a" -> 1 [] l = "c" -> 3 [] l = "d" -> 4]
 
 R(l) == [k |-> "ref", l |-> l]
